@@ -150,12 +150,12 @@ Section Group.
     induction t1 as [|[n t] r IH]; simpl; intros H; [discriminate|].
     destruct (has_header r) eqn:Hr.
     - destruct (IH eq_refl) as (pre1 & s1 & n0 & name & p & E).
-      destruct t.
+      destruct t as [|hn|cs].
       + exists pre1, s1, n0, name, p. intros rest. now rewrite E.
-      + exists [], ((n, name0, pre1) :: s1), n0, name, p. intros rest. now rewrite E.
-      + exists ((n, stripped) :: pre1), s1, n0, name, p. intros rest. now rewrite E.
-    - destruct t; simpl in H; try (rewrite Hr in H; discriminate).
-      exists [], [], n, name, (contents r). intros rest.
+      + exists [], ((n, hn, pre1) :: s1), n0, name, p. intros rest. now rewrite E.
+      + exists ((n, cs) :: pre1), s1, n0, name, p. intros rest. now rewrite E.
+    - destruct t as [|hn|cs]; simpl in H; try discriminate.
+      exists [], [], n, hn, (contents r). intros rest.
       rewrite (group_app_nohdr r rest Hr). simpl. reflexivity.
   Qed.
 
@@ -228,3 +228,394 @@ Proof.
   - intros H. destruct (IH _ H) as (s' & y & Hin & Hy). exists s', y; auto.
   - intros H; inversion H; subst. exists s, x; auto.
 Qed.
+
+(* ========================================================================================== *)
+(* D. layout edits that leave every line's classification unchanged                              *)
+
+Lemma Forall2_refl {A} (R : A -> A -> Prop) l : (forall x, R x x) -> Forall2 R l l.
+Proof. intros H. induction l; constructor; auto. Qed.
+
+Lemma Forall2_replace {A} (R : A -> A -> Prop) l1 a b l2 :
+  (forall x, R x x) -> R a b -> Forall2 R (l1 ++ a :: l2) (l1 ++ b :: l2).
+Proof.
+  intros Hr Hab. apply Forall2_app; [now apply Forall2_refl|].
+  constructor; [exact Hab|now apply Forall2_refl].
+Qed.
+
+Lemma toks_ext (cl : string -> cline) ls ls' k :
+  Forall2 (fun a b => cl a = cl b) ls ls' ->
+  map (fun p => (fst p, cl (snd p))) (number k ls) = map (fun p => (fst p, cl (snd p))) (number k ls').
+Proof.
+  intros H. revert k. induction H as [|a b l l' Hab _ IH]; intros k; simpl; [reflexivity|].
+  now rewrite Hab, IH.
+Qed.
+
+Lemma classify_m_strip a b : strip a = strip b -> classify_m a = classify_m b.
+Proof. unfold classify_m. now intros ->. Qed.
+
+Lemma view_header_none_of_strip l : first_is "[" (strip l) = false -> view_header l = None.
+Proof.
+  unfold view_header, strip. destruct (rstrip l) as [|c t] eqn:E; [reflexivity|].
+  simpl. destruct (is_ws c) eqn:W.
+  - destruct c as [[] [] [] [] [] [] [] []]; try discriminate W; reflexivity.
+  - simpl. intros H.
+    destruct c as [[] [] [] [] [] [] [] []]; try reflexivity; discriminate H.
+Qed.
+
+Lemma classify_v_rstrip a b : rstrip a = rstrip b -> classify_v a = classify_v b.
+Proof. unfold classify_v, view_header, strip. now intros ->. Qed.
+
+Lemma classify_v_strip a b :
+  strip a = strip b -> first_is "[" (strip a) = false -> classify_v a = classify_v b.
+Proof.
+  intros E H. unfold classify_v. rewrite <- E.
+  rewrite (view_header_none_of_strip a H).
+  rewrite E in H. now rewrite (view_header_none_of_strip b H).
+Qed.
+
+Section Merchants.
+  Variable pyparse : string -> bool.
+
+  Lemma parse_m_ext ls ls' :
+    Forall2 (fun a b => classify_m a = classify_m b) ls ls' ->
+    parse_merchants pyparse ls = parse_merchants pyparse ls'.
+  Proof.
+    intros H. unfold parse_merchants, parse_m_numbered. now rewrite (toks_ext classify_m ls ls' 1 H).
+  Qed.
+
+  Lemma parse_m_strip_ext ls ls' :
+    Forall2 (fun a b => strip a = strip b) ls ls' ->
+    parse_merchants pyparse ls = parse_merchants pyparse ls'.
+  Proof.
+    intros H. apply parse_m_ext. induction H; constructor; auto using classify_m_strip.
+  Qed.
+
+  Lemma m_trailing_blanks l1 l w l2 :
+    all_ws w = true ->
+    parse_merchants pyparse (l1 ++ (l ++ w)%string :: l2) = parse_merchants pyparse (l1 ++ l :: l2).
+  Proof.
+    intros H. apply parse_m_strip_ext. apply Forall2_replace; [reflexivity|]. now apply strip_app_ws_r.
+  Qed.
+
+  Lemma m_reindent l1 l w l2 :
+    all_ws w = true ->
+    parse_merchants pyparse (l1 ++ (w ++ l)%string :: l2) = parse_merchants pyparse (l1 ++ l :: l2).
+  Proof.
+    intros H. apply parse_m_strip_ext. apply Forall2_replace; [reflexivity|]. now apply strip_app_ws_l.
+  Qed.
+
+  Definition add_cr (l : string) : string := (l ++ String (ascii_of_nat 13) "")%string.
+
+  Lemma m_crlf ls : parse_merchants pyparse (map add_cr ls) = parse_merchants pyparse ls.
+  Proof.
+    apply parse_m_strip_ext. induction ls; simpl; constructor; auto.
+    unfold add_cr. apply strip_app_ws_r. reflexivity.
+  Qed.
+
+  (* CRLF file whose last line has no terminator: any subset of lines may carry the CR *)
+  Lemma m_crlf_some ls ls' :
+    Forall2 (fun a b => a = b \/ a = add_cr b) ls ls' ->
+    parse_merchants pyparse ls = parse_merchants pyparse ls'.
+  Proof.
+    intros H. apply parse_m_strip_ext. induction H as [|a b l l' [->| ->] _ IH]; constructor; auto.
+    unfold add_cr. apply strip_app_ws_r. reflexivity.
+  Qed.
+
+  (* ---------------------------------------------------------------------------------------- *)
+  (* line numbers are carried, never inspected                                                  *)
+
+  Definition renum_rule (f : nat -> nat) (r : rule) : rule :=
+    {| r_name := r_name r; r_match := r_match r; r_category := r_category r; r_subcategory := r_subcategory r;
+       r_merchant := r_merchant r; r_tags := r_tags r; r_priority := r_priority r; r_line := f (r_line r);
+       r_lets := r_lets r; r_fields := r_fields r |}.
+  Definition renum_mfile (f : nat -> nat) (m : mfile) : mfile :=
+    {| m_rules := map (renum_rule f) (m_rules m); m_vars := m_vars m; m_transforms := m_transforms m |}.
+  Definition renum_m (f : nat -> nat) (r : res mfile) : res mfile := emap f (renum_mfile f) r.
+
+  Lemma apply_prop_renum f st ln : apply_prop st (on_fst f ln) = emap f (fun x => x) (apply_prop st ln).
+  Proof.
+    unfold apply_prop, on_fst; simpl. destruct (prop_of (snd ln)) as [[k v]|]; [|reflexivity].
+    unfold apply_kv. destruct (key_of k); try reflexivity;
+      try (destruct (ident_eq v) as [[? ?]|]; reflexivity).
+    destruct (parse_int v); reflexivity.
+  Qed.
+
+  Lemma foldM_apply_prop_renum f props st :
+    foldM apply_prop (map (on_fst f) props) st = emap f (fun x => x) (foldM apply_prop props st).
+  Proof.
+    revert st. induction props as [|ln r IH]; intros st; simpl; [reflexivity|].
+    rewrite apply_prop_renum. destruct (apply_prop st ln); simpl; auto.
+  Qed.
+
+  Lemma finish_rule_renum f n0 name pr :
+    finish_rule pyparse (f n0) name pr = emap f (renum_rule f) (finish_rule pyparse n0 name pr).
+  Proof.
+    unfold finish_rule. destruct (p_match pr); [|reflexivity].
+    repeat match goal with |- context [if ?b then _ else _] => destruct b; try reflexivity end.
+  Qed.
+
+  Lemma build_rule_renum f n0 name props :
+    build_rule pyparse (f n0, name, map (on_fst f) props)
+    = emap f (renum_rule f) (build_rule pyparse (n0, name, props)).
+  Proof.
+    unfold build_rule. destruct (is_empty name); [reflexivity|].
+    rewrite foldM_apply_prop_renum. destruct (foldM apply_prop props prule0); simpl; [|reflexivity].
+    apply finish_rule_renum.
+  Qed.
+
+  Lemma mapM_build_rule_renum f secs :
+    mapM (build_rule pyparse) (map (fun s : section => let '(n, name, ps) := s in (f n, name, map (on_fst f) ps)) secs)
+    = emap f (map (renum_rule f)) (mapM (build_rule pyparse) secs).
+  Proof.
+    induction secs as [|[[n name] ps] r IH]; [reflexivity|].
+    cbn [map mapM]. rewrite build_rule_renum. destruct (build_rule pyparse (n, name, ps)); cbn [bind emap]; [|reflexivity].
+    rewrite IH. destruct (mapM (build_rule pyparse) r); reflexivity.
+  Qed.
+
+  Lemma fold_pre_step_renum f pre st :
+    fold_left pre_step (map (on_fst f) pre) st = fold_left pre_step pre st.
+  Proof. revert st. induction pre as [|ln r IH]; intros st; simpl; [reflexivity|]. apply IH. Qed.
+
+  Lemma parse_m_numbered_renum f nl :
+    parse_m_numbered pyparse (map (on_fst f) nl) = renum_m f (parse_m_numbered pyparse nl).
+  Proof.
+    unfold parse_m_numbered.
+    replace (map (fun p => (fst p, classify_m (snd p))) (map (on_fst f) nl))
+      with (map (on_fst f) (map (fun p => (fst p, classify_m (snd p))) nl))
+      by (rewrite !map_map; reflexivity).
+    rewrite group_map. destruct (group _) as [pre secs]. unfold gmap; simpl.
+    rewrite fold_pre_step_renum. destruct (fold_left pre_step pre ([], [])) as [vars tr].
+    rewrite mapM_build_rule_renum. destruct (mapM (build_rule pyparse) secs); reflexivity.
+  Qed.
+
+  Lemma parse_m_numbered_skip xs n c ys :
+    classify_m c = Skip ->
+    parse_m_numbered pyparse (xs ++ (n, c) :: ys) = parse_m_numbered pyparse (xs ++ ys).
+  Proof.
+    intros H. unfold parse_m_numbered. rewrite !map_app. simpl. rewrite H, group_skip. reflexivity.
+  Qed.
+
+  (* inserting a blank or comment line anywhere: same result, later line numbers move down by one *)
+  Lemma m_insert_skip l1 c l2 :
+    classify_m c = Skip ->
+    parse_merchants pyparse (l1 ++ c :: l2)
+    = renum_m (shift (length l1)) (parse_merchants pyparse (l1 ++ l2)).
+  Proof.
+    intros H. unfold parse_merchants.
+    rewrite number_ins_l, parse_m_numbered_skip by exact H.
+    rewrite <- number_ins_r. apply parse_m_numbered_renum.
+  Qed.
+End Merchants.
+
+Lemma classify_m_blank c : all_ws c = true -> classify_m c = Skip.
+Proof.
+  intros H. unfold classify_m, strip. rewrite rstrip_all_ws by exact H. reflexivity.
+Qed.
+
+Lemma classify_m_comment w t : all_ws w = true -> classify_m (w ++ String "#" t)%string = Skip.
+Proof.
+  intros H. unfold classify_m. rewrite strip_app_ws_l by exact H.
+  unfold strip. simpl. destruct (rstrip t); reflexivity.
+Qed.
+
+(* ========================================================================================== *)
+(* E. edits inside a section: key letter case, order of distinct properties                      *)
+
+Definition sim {A} (r r' : res A) : Prop := r = r' \/ (is_ok r = false /\ is_ok r' = false).
+
+Lemma sim_refl {A} (r : res A) : sim r r.
+Proof. now left. Qed.
+Lemma sim_sym {A} (r r' : res A) : sim r r' -> sim r' r.
+Proof. intros [H|[H1 H2]]; [left; auto|right; auto]. Qed.
+Lemma sim_trans {A} (a b c : res A) : sim a b -> sim b c -> sim a c.
+Proof.
+  intros [->|[H1 H2]] [H|[H3 H4]]; subst; try (left; reflexivity); try (right; split; assumption).
+Qed.
+Lemma sim_bind {A B} (r r' : res A) (f : A -> res B) : sim r r' -> sim (bind r f) (bind r' f).
+Proof.
+  intros [->|[H1 H2]]; [apply sim_refl|]. right.
+  destruct r; [discriminate|]. destruct r'; [discriminate|]. split; reflexivity.
+Qed.
+Lemma sim_bind_r {A B} (r : res A) (f g : A -> res B) : (forall a, sim (f a) (g a)) -> sim (bind r f) (bind r g).
+Proof. intros H. destruct r; simpl; [apply H|apply sim_refl]. Qed.
+
+(* state-independent validity of a property line, and its effect *)
+Definition kv_check (key : pkey) (v : string) : option ekind :=
+  match key with
+  | KLet => match ident_eq v with Some _ => None | None => Some EBadLet end
+  | KField => match ident_eq v with Some _ => None | None => Some EBadField end
+  | KPriority => match parse_int v with Some _ => None | None => Some EBadPriority end
+  | KUnknown => Some EUnknownProperty
+  | _ => None
+  end.
+Definition kv_upd (key : pkey) (v : string) (pr : prule) : prule :=
+  match key with
+  | KLet => match ident_eq v with Some (id, e) => add_let pr (lower id) e | None => pr end
+  | KField => match ident_eq v with Some (id, e) => set_field pr (lower id) e | None => pr end
+  | KMatch => set_match pr v
+  | KCategory => set_category pr v
+  | KSubcategory => set_subcategory pr v
+  | KMerchant => set_merchant pr v
+  | KTags => set_tags pr (parse_tags v)
+  | KPriority => match parse_int v with Some z => set_priority pr z | None => pr end
+  | KUnknown => pr
+  end.
+Definition prop_check (s : string) : option ekind :=
+  match prop_of s with None => Some EUnexpected | Some (k, v) => kv_check (key_of k) v end.
+Definition prop_upd (s : string) (pr : prule) : prule :=
+  match prop_of s with None => pr | Some (k, v) => kv_upd (key_of k) v pr end.
+
+Lemma apply_prop_split st ln :
+  apply_prop st ln = match prop_check (snd ln) with Some k => Err (fst ln) k | None => Ok (prop_upd (snd ln) st) end.
+Proof.
+  unfold apply_prop, prop_check, prop_upd. destruct (prop_of (snd ln)) as [[k v]|]; [|reflexivity].
+  unfold apply_kv, kv_check, kv_upd. destruct (key_of k); try reflexivity;
+    try (destruct (ident_eq v) as [[? ?]|]; reflexivity).
+  destruct (parse_int v); reflexivity.
+Qed.
+
+Lemma key_of_known_inj k1 k2 : key_of k1 = key_of k2 -> key_of k1 <> KUnknown -> k1 = k2.
+Proof.
+  unfold key_of.
+  destruct (String.eqb_spec k1 "let"); [destruct (String.eqb_spec k2 "let"); [congruence|]|].
+  { repeat match goal with |- context [String.eqb ?a ?b] => destruct (String.eqb a b) end; discriminate. }
+  destruct (String.eqb_spec k1 "field"); [destruct (String.eqb_spec k2 "let"); [discriminate|destruct (String.eqb_spec k2 "field"); [congruence|]]|].
+  { repeat match goal with |- context [String.eqb ?a ?b] => destruct (String.eqb a b) end; discriminate. }
+  destruct (String.eqb_spec k1 "match").
+  { repeat match goal with |- context [String.eqb k2 ?b] => destruct (String.eqb_spec k2 b) end; try discriminate; congruence. }
+  destruct (String.eqb_spec k1 "category").
+  { repeat match goal with |- context [String.eqb k2 ?b] => destruct (String.eqb_spec k2 b) end; try discriminate; congruence. }
+  destruct (String.eqb_spec k1 "subcategory").
+  { repeat match goal with |- context [String.eqb k2 ?b] => destruct (String.eqb_spec k2 b) end; try discriminate; congruence. }
+  destruct (String.eqb_spec k1 "merchant").
+  { repeat match goal with |- context [String.eqb k2 ?b] => destruct (String.eqb_spec k2 b) end; try discriminate; congruence. }
+  destruct (String.eqb_spec k1 "tags").
+  { repeat match goal with |- context [String.eqb k2 ?b] => destruct (String.eqb_spec k2 b) end; try discriminate; congruence. }
+  destruct (String.eqb_spec k1 "priority").
+  { repeat match goal with |- context [String.eqb k2 ?b] => destruct (String.eqb_spec k2 b) end; try discriminate; congruence. }
+  intros _ H. congruence.
+Qed.
+
+Lemma kv_upd_comm key1 v1 key2 v2 pr :
+  key1 <> key2 -> kv_upd key1 v1 (kv_upd key2 v2 pr) = kv_upd key2 v2 (kv_upd key1 v1 pr).
+Proof.
+  intros Hne. destruct key1, key2; try congruence; unfold kv_upd;
+    repeat match goal with
+           | |- context [ident_eq ?v] => destruct (ident_eq v) as [[? ?]|]
+           | |- context [parse_int ?v] => destruct (parse_int v)
+           end; reflexivity.
+Qed.
+
+Definition line_key (s : string) : option string :=
+  match prop_of s with Some (k, _) => Some k | None => None end.
+
+Lemma swap_props n1 s1 n2 s2 st :
+  line_key s1 <> line_key s2 ->
+  sim (foldM apply_prop [(n1, s1); (n2, s2)] st) (foldM apply_prop [(n1, s2); (n2, s1)] st).
+Proof.
+  intros Hk. cbn [foldM]. rewrite !apply_prop_split. cbn [fst snd].
+  destruct (prop_check s1) eqn:C1, (prop_check s2) eqn:C2; cbn [bind];
+    rewrite ?apply_prop_split; cbn [fst snd]; rewrite ?C1, ?C2; cbn [bind];
+    try (right; split; reflexivity).
+  left. f_equal.
+  unfold prop_check, prop_upd, line_key in *.
+  destruct (prop_of s1) as [[k1 v1]|]; [|discriminate].
+  destruct (prop_of s2) as [[k2 v2]|]; [|discriminate].
+  apply kv_upd_comm. intros E.
+  assert (key_of k2 <> KUnknown) by (intros U; rewrite U in C2; discriminate).
+  apply Hk. f_equal. symmetry. apply key_of_known_inj; congruence.
+Qed.
+
+Section MerchantsSection.
+  Variable pyparse : string -> bool.
+  Let tk := fun p : nat * string => (fst p, classify_m (snd p)).
+
+  Lemma build_replace_sim n0 name p c c' q :
+    (forall st, sim (foldM apply_prop c st) (foldM apply_prop c' st)) ->
+    sim (build_rule pyparse (n0, name, p ++ c ++ q)) (build_rule pyparse (n0, name, p ++ c' ++ q)).
+  Proof.
+    intros H. unfold build_rule. destruct (is_empty name); [apply sim_refl|].
+    apply sim_bind. rewrite !foldM_app. apply sim_bind_r. intros st. apply sim_bind. apply H.
+  Qed.
+
+  Lemma mapM_replace_sim {A B} (f : A -> res B) s1 x x' s2 :
+    sim (f x) (f x') -> sim (mapM f (s1 ++ x :: s2)) (mapM f (s1 ++ x' :: s2)).
+  Proof.
+    intros H. rewrite !mapM_app. apply sim_bind_r. intros a. apply sim_bind.
+    cbn [mapM]. apply sim_bind. exact H.
+  Qed.
+
+  (* replacing a block of content lines that sits inside a section *)
+  Lemma m_section_replace_sim xs cb cb' ys :
+    has_header (map tk xs) = true ->
+    (forall p, In p (map tk cb) -> exists s, snd p = Content s) ->
+    (forall p, In p (map tk cb') -> exists s, snd p = Content s) ->
+    (forall st, sim (foldM apply_prop (contents (map tk cb)) st) (foldM apply_prop (contents (map tk cb')) st)) ->
+    sim (parse_m_numbered pyparse (xs ++ cb ++ ys)) (parse_m_numbered pyparse (xs ++ cb' ++ ys)).
+  Proof.
+    intros Hh Hc Hc' Hs. unfold parse_m_numbered. fold tk. rewrite !map_app.
+    destruct (group_app_hdr _ Hh) as (pre1 & s1 & n0 & name & p & E).
+    rewrite !E, (group_contents _ _ Hc), (group_contents _ _ Hc'). cbn [fst snd].
+    destruct (fold_left pre_step pre1 ([], [])) as [vars tr].
+    apply sim_bind. apply mapM_replace_sim. apply build_replace_sim. exact Hs.
+  Qed.
+
+  Lemma has_header_number l1 k :
+    has_header (map tk (number k l1)) = existsb (fun l => match classify_m l with Header _ => true | _ => false end) l1.
+  Proof. revert k. induction l1 as [|a l IH]; intros k; simpl; [reflexivity|]. now rewrite IH. Qed.
+
+  Definition in_section (l1 : list string) : bool :=
+    existsb (fun l => match classify_m l with Header _ => true | _ => false end) l1.
+
+  Lemma bind_ext {A B} (r : res A) (f g : A -> res B) : (forall a, f a = g a) -> bind r f = bind r g.
+  Proof. intros H. destruct r; simpl; auto. Qed.
+
+  Lemma m_section_replace_eq xs cb cb' ys :
+    has_header (map tk xs) = true ->
+    (forall p, In p (map tk cb) -> exists s, snd p = Content s) ->
+    (forall p, In p (map tk cb') -> exists s, snd p = Content s) ->
+    (forall st, foldM apply_prop (contents (map tk cb)) st = foldM apply_prop (contents (map tk cb')) st) ->
+    parse_m_numbered pyparse (xs ++ cb ++ ys) = parse_m_numbered pyparse (xs ++ cb' ++ ys).
+  Proof.
+    intros Hh Hc Hc' Hs. unfold parse_m_numbered. fold tk. rewrite !map_app.
+    destruct (group_app_hdr _ Hh) as (pre1 & s1 & n0 & name & p & E).
+    rewrite !E, (group_contents _ _ Hc), (group_contents _ _ Hc'). cbn [fst snd].
+    destruct (fold_left pre_step pre1 ([], [])) as [vars tr].
+    f_equal. rewrite !mapM_app. apply bind_ext. intros a. f_equal. cbn [mapM]. f_equal.
+    unfold build_rule. destruct (is_empty name); [reflexivity|]. f_equal.
+    rewrite !foldM_app. apply bind_ext. intros st. now rewrite Hs.
+  Qed.
+
+  (* --- key letter case ------------------------------------------------------------------- *)
+  Lemma m_prop_equiv l1 l l' l2 s s' :
+    in_section l1 = true ->
+    classify_m l = Content s -> classify_m l' = Content s' -> prop_of s = prop_of s' ->
+    parse_merchants pyparse (l1 ++ l :: l2) = parse_merchants pyparse (l1 ++ l' :: l2).
+  Proof.
+    intros Hin Hl Hl' Hp. unfold parse_merchants. rewrite !number_app. cbn [number].
+    apply (m_section_replace_eq (number 1 l1) [(1 + length l1, l)] [(1 + length l1, l')]
+                  (number (S (1 + length l1)) l2)).
+    - now rewrite has_header_number.
+    - intros p [<-|[]]. unfold tk; cbn. rewrite Hl. eauto.
+    - intros p [<-|[]]. unfold tk; cbn. rewrite Hl'. eauto.
+    - intros st. unfold tk; cbn [map contents flat_map fst snd]. rewrite Hl, Hl'. cbn [app foldM].
+      unfold apply_prop; cbn [fst snd]. now rewrite Hp.
+  Qed.
+
+  (* --- two adjacent property lines with different keys ------------------------------------ *)
+  Lemma m_swap_adjacent l1 a b l2 sa sb :
+    in_section l1 = true ->
+    classify_m a = Content sa -> classify_m b = Content sb -> line_key sa <> line_key sb ->
+    sim (parse_merchants pyparse (l1 ++ a :: b :: l2)) (parse_merchants pyparse (l1 ++ b :: a :: l2)).
+  Proof.
+    intros Hin Ha Hb Hk. unfold parse_merchants. rewrite !number_app. cbn [number].
+    apply (m_section_replace_sim (number 1 l1)
+             [(1 + length l1, a); (S (1 + length l1), b)] [(1 + length l1, b); (S (1 + length l1), a)]
+             (number (S (S (1 + length l1))) l2)).
+    - now rewrite has_header_number.
+    - intros p [<-|[<-|[]]]; unfold tk; cbn; rewrite ?Ha, ?Hb; eauto.
+    - intros p [<-|[<-|[]]]; unfold tk; cbn; rewrite ?Ha, ?Hb; eauto.
+    - intros st. unfold tk; cbn [map contents flat_map fst snd]. rewrite Ha, Hb. cbn [app].
+      now apply swap_props.
+  Qed.
+End MerchantsSection.
